@@ -2,6 +2,6 @@ SPECIFICATION Spec
 CONSTANTS
   DepthLimit = 64
   StrLens = {0, 2, 65535, 65536, 70000}
-  Level = 3
+  Level = 4
 INVARIANTS RoundTrip Total
 ACTION_CONSTRAINT EmitS
